@@ -284,9 +284,8 @@ func (r *Run) Violations() int { r.mu.Lock(); defer r.mu.Unlock(); return len(r.
 func (r *Run) Finish(t *testing.T) {
 	r.mu.Lock()
 	defer r.mu.Unlock()
-	if r.replay != nil && !r.replayHit {
-		r.res.Inconclusive = append(r.res.Inconclusive, "replay file names check "+r.replay.Check+" which this binary does not have")
-	}
+	// (in replay mode a test function that does not own the named check simply evaluates nothing;
+	// the driver complains when no test function of the binary evaluated the case)
 	r.res.Hashes = make([]uint64, 0, len(r.hashes))
 	for h := range r.hashes {
 		r.res.Hashes = append(r.res.Hashes, h)
